@@ -575,3 +575,19 @@ package hashgraph
 //@   loop 1 invariant[prefix]  !(processedRounds == nil) && len(processedRounds) == __idx() && h.PendingRounds == old(h.PendingRounds) && __eq(__ranged(OrderedPendingRounds(nil)), old(h.PendingRounds.sortedItems)) && (forall k int :: 0 <= k && k < __idx() ==> processedRounds[k] == old(h.PendingRounds.sortedItems)[k].Index && old(h.PendingRounds.sortedItems)[k].Decided)
 //@   loop 1 invariant[flags]   (forall p *PendingRound :: p.Decided == old(p.Decided) && p.Index == old(p.Index)) && h.PendingRounds.wf()
 //@   loop 2 invariant[keep]    true
+
+// ------------------------------------------------------------------------------------------------
+// Signature pool (C05, C09)
+
+//@ func (sp *SigPool) Slice() []BlockSignature
+//@   requires sp != nil
+//@   modifies nothing
+//@   ensures[len] len(ret0) == len(sp.items) && !(ret0 == nil)
+//@   loop 1 invariant[len] !(res == nil) && len(res) == __iter()
+
+//@ func (sp *SigPool) RemoveSlice(sigs []BlockSignature)
+//@   requires sp != nil
+//@   modifies sp.items[*]
+//@   ensures[subset] forall k string :: __in(k, sp.items) ==> old(__in(k, sp.items)) && __eq(sp.items[k], old(sp.items[k]))
+//@   loop 1 modifies sp.items[*]
+//@   loop 1 invariant[subset] forall k string :: __in(k, sp.items) ==> old(__in(k, sp.items)) && __eq(sp.items[k], old(sp.items[k]))
